@@ -164,6 +164,8 @@ pub struct Sim {
     /// run profile (pointwise tie coverage): 0 none, 1 flow control, 2 transfer + membership,
     /// 3 snapshots, 4 reads: a quarter of the random events come from the profile's own list
     pub focus: u8,
+    /// message of the most recent panic of any node
+    pub last_panic: Option<String>,
     pub pt: crate::ptrace::PTrace,
 }
 
@@ -199,7 +201,25 @@ pub fn call_kind(c: &Call) -> &'static str {
 
 impl Sim {
     pub fn new(seed: u64, rec: Recorder) -> Sim {
-        Sim { nodes: vec![], net: vec![], rng: Rng::new(seed), rec, next_payload: 1, archive: vec![], max_log: 12, trace: vec![], keep_trace: false, trace_tail: 60, run_id: seed, trace_len: 0, mon: None, halted: false, quiet: false, extra_steps: false, adversarial: false, force_prevote_cq: false, force_sim_snap: false, voter_campaign_only: false, fixed_conf: false, focus: 0, pt: Default::default() }
+        Sim { nodes: vec![], net: vec![], rng: Rng::new(seed), rec, next_payload: 1, archive: vec![], max_log: 12, trace: vec![], keep_trace: false, trace_tail: 60, run_id: seed, trace_len: 0, mon: None, halted: false, quiet: false, extra_steps: false, adversarial: false, force_prevote_cq: false, force_sim_snap: false, voter_campaign_only: false, fixed_conf: false, focus: 0, last_panic: None, pt: Default::default() }
+    }
+
+    /// A cluster of the given shape with the given per-node configuration (scripted scenarios).
+    pub fn boot_fixed(&mut self, voters: &[u64], learners: &[u64], mk: impl Fn(u64) -> Config) {
+        for id in voters.iter().chain(learners.iter()) {
+            let cfg = mk(*id);
+            let store = MemStorage::new_with_conf_state((voters.to_vec(), learners.to_vec()));
+            let sstore = SimStorage::new(store.clone(), true);
+            let durable = MemStorage::new_with_conf_state((voters.to_vec(), learners.to_vec()));
+            self.nodes.push(SimNode { id: *id, cfg, store, sstore, durable, durable_ops: vec![], unsynced: VecDeque::new(),
+                init_cs: (voters.to_vec(), learners.to_vec()), sim_snap: true, driver: None, applied: 0, reported: 0, async_pending: VecDeque::new(), to_apply: VecDeque::new() });
+        }
+        for i in 0..self.nodes.len() {
+            self.start(i);
+        }
+        self.pt.inc = voters.to_vec();
+        self.pt.enabled = true;
+        self.with_mon(|m, s| m.on_boot(s));
     }
 
     /// Random cluster shape and per-node configuration.
@@ -436,6 +456,11 @@ impl Sim {
                 }
             }
             self.nodes[i].driver = None;
+            self.last_panic = Some(p.clone());
+            // the process is gone: exactly as in a crash, writes that were not fsynced are lost
+            self.nodes[i].async_pending.clear();
+            self.nodes[i].to_apply.clear();
+            self.lose_unsynced(i);
             if let Some(pre) = pre {
                 self.with_mon(|m, s| m.after(s, i, &c, &o, pre));
                 self.with_mon(|m, s| m.on_crash(s, i));
@@ -601,6 +626,12 @@ impl Sim {
 
     /// One synchronous or asynchronous Ready round on node i.
     pub fn ready_round(&mut self, i: usize) {
+        self.ready_round_with(i, None)
+    }
+
+    /// One Ready round; `forced` fixes the persistence mode (0-4 synchronous advance, 5-6
+    /// advance_append, 7-9 asynchronous) instead of drawing it.
+    pub fn ready_round_with(&mut self, i: usize, forced: Option<u64>) {
         if self.nodes[i].driver.is_none() || self.nodes[i].driver.as_ref().unwrap().last_rd.is_some() {
             return;
         }
@@ -618,7 +649,10 @@ impl Sim {
         let rv = o.ready.unwrap();
         self.send(i, rv.messages.clone());
         // the write is durable at once in the synchronous modes; asynchronous Readies are fsynced later
-        let mode = self.rng.below(10);
+        let mode = match forced {
+            Some(m) => m,
+            None => self.rng.below(10),
+        };
         self.write_ready(i, &rv, mode < 7);
         for e in &rv.committed_entries {
             self.nodes[i].to_apply.push_back(e.clone());
